@@ -5,7 +5,9 @@ import (
 	"encoding/hex"
 	"encoding/json"
 	"fmt"
+	"regexp"
 	"sort"
+	"strings"
 
 	"github.com/hashicorp/raft-wal/types"
 )
@@ -155,10 +157,10 @@ func has(xs []string, s string) bool {
 
 // ImgInfo describes how a crash image relates to what was pending (evidence).
 type ImgInfo struct {
-	Dirty, Kept       int // un-fsynced chunks at the crash point / of those, persisted
-	PendDir, DoneDir  int // pending directory operations / of those, persisted
-	LenChoices        int // files whose durable length differs from the volatile one
-	Hash              string
+	Dirty, Kept      int // un-fsynced chunks at the crash point / of those, persisted
+	PendDir, DoneDir int // pending directory operations / of those, persisted
+	LenChoices       int // files whose durable length differs from the volatile one
+	Hash             string
 }
 
 // Trivial: nothing or everything that was pending reached the disk.
@@ -281,11 +283,11 @@ type TEv struct {
 	Res    string `json:"res"`
 	Mut    bool   `json:"mut"`
 	// for the I/O-order judge (spec/WalIoTrace.tla)
-	ID   int   `json:"id"`   // create/unlink/write/sync: segment id parsed from the file name (-1: none)
-	IDs  []int `json:"ids"`  // mcommit: ids of the segments listed by the committed state
-	Next int   `json:"next"` // mcommit: NextSegmentID
-	BG   bool  `json:"bg"`   // issued by a background goroutine (rotation)
-	OpK  string `json:"opk"` // inv markers: kind of the API call
+	ID   int    `json:"id"`   // create/unlink/write/sync: segment id parsed from the file name (-1: none)
+	IDs  []int  `json:"ids"`  // mcommit: ids of the segments listed by the committed state
+	Next int    `json:"next"` // mcommit: NextSegmentID
+	BG   bool   `json:"bg"`   // issued by a background goroutine (rotation)
+	OpK  string `json:"opk"`  // inv markers: kind of the API call
 	// for the stateful engine trace specification (spec/WalImplTrace.tla)
 	Segs   [][]int `json:"segs"`   // mcommit/mload: per listed segment <<id, base, min, max, sealed(0/1), indexStart>>
 	AFirst int     `json:"afirst"` // inv store: first index; ret: FirstIndex() observed (-1: not observed)
@@ -296,6 +298,72 @@ type TEv struct {
 	ALast  int     `json:"alast"`  // ret: LastIndex() observed (-1: not observed)
 	ARes   string  `json:"ares"`   // ret: ok | err | "" (not known)
 	Base   int     `json:"base"`   // create/unlink/openr/openw: BaseIndex parsed from the file name (-1: none)
+	Frames string  `json:"frames"` // write: the frames the written bytes hold, one letter each: H file header, E entry, I index, C commit;
+	//                                 "Z" = only zero bytes (recovery erasing torn remains), "?" = not a frame sequence
+	NIdx int `json:"nidx"` // write: number of offsets in the index frame (0: none)
+	WOff int `json:"woff"` // write: start position in chunks
+	// write: counts of the frame letters, and whether their ORDER is header? entries* index? commit (what one batch /
+	// one forced seal may be)
+	NHdr       int  `json:"nhdr"`
+	NEnt       int  `json:"nent"`
+	NIdxF      int  `json:"nidxf"`
+	NCmt       int  `json:"ncmt"`
+	WellFormed bool `json:"wellformed"`
+}
+
+var batchOrder = regexp.MustCompile(`^H?E*I?C$`)
+
+// frameKinds reads written bytes as the README's frame sequence (8-byte frame headers: type byte, 3 reserved, uint32
+// length; entry = 1, index = 2, commit = 3; payloads padded to 8 bytes; a 32-byte file header with the magic at offset 0).
+func frameKinds(off int64, b []byte) (string, int) {
+	allZero := true
+	for _, x := range b {
+		if x != 0 {
+			allZero = false
+			break
+		}
+	}
+	if allZero {
+		return "Z", 0
+	}
+	out := []byte{}
+	nidx := 0
+	p := 0
+	if off == 0 && len(b) >= 32 && b[0] == 0x0d && b[1] == 0x6b && b[2] == 0xeb && b[3] == 0x58 {
+		out = append(out, 'H')
+		p = 32
+	}
+	for p+8 <= len(b) {
+		typ := b[p]
+		ln := int(uint32(b[p+4]) | uint32(b[p+5])<<8 | uint32(b[p+6])<<16 | uint32(b[p+7])<<24)
+		switch typ {
+		case 1, 2:
+			end := p + 8 + ln
+			end += (8 - end%8) % 8
+			if ln < 0 || end > len(b) {
+				return string(out) + "?", nidx
+			}
+			if typ == 1 {
+				out = append(out, 'E')
+			} else {
+				out = append(out, 'I')
+				nidx = ln / 4
+			}
+			p = end
+		case 3:
+			out = append(out, 'C')
+			p += 8
+		default:
+			return string(out) + "?", nidx
+		}
+		if len(out) > 4096 {
+			break
+		}
+	}
+	if p != len(b) && len(out) <= 4096 {
+		return string(out) + "?", nidx
+	}
+	return string(out), nidx
 }
 
 func clampInt(v uint64) int {
@@ -394,6 +462,11 @@ func Project(log []Ev) []TEv {
 				}
 				t.End = (end + Chunk - 1) / Chunk
 				t.Mut = true
+				t.Frames, t.NIdx = frameKinds(e.Off, e.Data)
+				t.WOff = int(e.Off) / Chunk
+				t.NHdr, t.NEnt = strings.Count(t.Frames, "H"), strings.Count(t.Frames, "E")
+				t.NIdxF, t.NCmt = strings.Count(t.Frames, "I"), strings.Count(t.Frames, "C")
+				t.WellFormed = batchOrder.MatchString(t.Frames)
 			}
 		case "sync":
 			t.Mut = e.Res != "err"
